@@ -50,7 +50,9 @@ class Monitor:
         self.vector = R.HANDLER
         self.frames: List[Dict[str, Any]] = []
         self.lp: Optional[str] = None          # instruction kind by which low power was entered
-        self.req: Dict[int, int] = {}          # status bit -> consecutive eligible boundaries without delivery
+        # status bit -> [consecutive eligible boundaries without delivery, a delivery for another source happened
+        # while this request was pending but not a candidate (masked)]
+        self.req: Dict[int, List[Any]] = {}
         self.out: List[Tuple[str, str, str, str]] = []   # (subcheck, where, symptom, detail)
         self.labels: set = set()
         self.dead = False
@@ -78,7 +80,7 @@ class Monitor:
         fell = P["isr"] & ~B["isr"] & 0x0F
         for bit in (1, 2, 4, 8):
             if rose & bit:
-                self.req.setdefault(bit, 0)
+                self.req.setdefault(bit, [0, False])
         if fell:
             allowed = 0x08 if "on_up" in kinds else 0
             bad = fell & ~allowed
@@ -135,9 +137,10 @@ class Monitor:
         executed: Optional[Dict[str, Any]] = None
         delivered_here = False
         served = 0
+        bypassed = 0
 
         def deliver() -> bool:
-            nonlocal delivered_here, served
+            nonlocal delivered_here, served, bypassed
             stk = self._stk(A)
             fa = cur["s"] - 5
             if fa < self.lo or cur["s"] > R.STACK_TOP:
@@ -187,7 +190,10 @@ class Monitor:
             for bit in (1, 2, 4, 8):
                 if cand & bit:
                     self.req.pop(bit, None)
+                elif bit in self.req and (isr_at & bit):
+                    self.req[bit][1] = True
             served |= cand & 0x0F
+            bypassed |= isr_at & ~cand & 0x0F
             self.deliveries += 1
             delivered_here = True
             self.labels.add(f"delivery:{ctx}")
@@ -306,7 +312,7 @@ class Monitor:
             fw_set = executed["arg"] & 0x0F
         for bit in (1, 2, 4, 8):
             if rose & bit and not (fw_set & bit) and not (served & bit):
-                self.req.setdefault(bit, 0)
+                self.req.setdefault(bit, [0, bool(bypassed & bit)])
         if fell:
             allowed = 0
             how = []
@@ -336,17 +342,18 @@ class Monitor:
             elig = B["imr"] & B["isr"] & 0x0F
         for bit in list(self.req):
             if delivered_here:
-                if bit in self.req:
-                    self.req[bit] = 0
+                self.req[bit][0] = 0
                 continue
             if elig & bit:
-                self.req[bit] += 1
-                if self.req[bit] >= BOUND:
-                    self.v("not-lost", ctx, f"enabled pending request {_names(bit)} not taken within {BOUND} step boundaries",
+                self.req[bit][0] += 1
+                if self.req[bit][0] >= BOUND:
+                    why = (" after a delivery for another source intervened while it was masked"
+                           if self.req[bit][1] else "")
+                    self.v("not-lost", ctx, f"enabled pending request {_names(bit)} not taken within {BOUND} step boundaries" + why,
                            f"step {k}: IMR={B['imr']:#04x} ISR={B['isr']:#04x} model pending-flag={B['pend']} in-interrupt={B['inint']}")
                     self.req.pop(bit, None)
             else:
-                self.req[bit] = 0
+                self.req[bit][0] = 0
         # coverage bookkeeping: pending-but-masked boundaries
         if B["isr"] & 0x0F and not (B["imr"] & 0x80 and B["imr"] & B["isr"] & 0x0F):
             self.masked_pending_run += 1
